@@ -1,38 +1,43 @@
-(* The SPIFFE patterns the translator builds, against the identities they are meant to cover.
-   With names free of regex metacharacters (in the modelled fragment: '.'), the pattern of a
-   source matches exactly the URIs of the identities the source covers.  Without that
-   hypothesis it does not (Proofs.v: regex witness). *)
+(* The SPIFFE patterns the translator builds, against the identities they are meant to cover:
+   the pattern of a source matches exactly the URIs of the identities the source covers, for
+   ALL namespace and service names (they are quoted, [raw_match_quote_meta]); the partition is
+   still spliced unquoted and is assumed free of metacharacters. *)
 From Coq Require Import Btauto.
 From Verif Require Import Base.Prelude.
 From Verif Require Import RBAC.Model.
 Local Open Scope string_scope.
 Local Open Scope bool_scope.
 
+(* text without regex metacharacters of the modelled fragment ('.' and the escape character) *)
 Fixpoint dot_free (s : string) : bool :=
   match s with
   | EmptyString => true
-  | String a s' => negb (Ascii.eqb a ".") && dot_free s'
+  | String a s' => negb (Ascii.eqb a ".") && negb (Ascii.eqb a bslash) && dot_free s'
   end.
 
 Lemma raw_match_dot_free p s : dot_free p = true -> raw_match p s = (p =? s).
 Proof.
-  revert s; induction p as [|a p IH]; intros [|b s]; cbn; try reflexivity.
-  intros H. apply andb_true_iff in H as [Ha Hp]. rewrite (IH s Hp).
-  destruct (Ascii.eqb a "."); [discriminate|]. reflexivity.
+  revert s; induction p as [|a p IH]; intros [|b s]; cbn [raw_match dot_free String.eqb]; try reflexivity.
+  intros H. apply andb_true_iff in H as [Ha Hp]. apply andb_true_iff in Ha as [Hd Hb].
+  rewrite (IH s Hp).
+  destruct (Ascii.eqb a bslash); [discriminate|]. destruct (Ascii.eqb a "."); [discriminate|]. reflexivity.
 Qed.
 
-Lemma raw_match_refl s : raw_match s s = true.
+(* regexp.QuoteMeta does its job: the quoted text matches exactly the original text *)
+Lemma special_not_plain c : is_special c = false -> Ascii.eqb c bslash = false /\ Ascii.eqb c "." = false.
 Proof.
-  induction s as [|a s IH]; cbn; [reflexivity|].
-  rewrite Ascii.eqb_refl, orb_true_r, IH. reflexivity.
+  unfold is_special, special_chars. cbn [existsb]. intros H.
+  apply orb_false_iff in H as [H1 H]. apply orb_false_iff in H as [H2 _]. split; assumption.
 Qed.
 
-Lemma raw_match_host t h : (raw_match t h = true -> t = h) -> raw_match t h = (t =? h).
+Lemma raw_match_quote_meta s w : raw_match (quote_meta s) w = (s =? w).
 Proof.
-  intros H. destruct (t =? h) eqn:E.
-  - apply String.eqb_eq in E. subst. apply raw_match_refl.
-  - destruct (raw_match t h) eqn:R; [|reflexivity].
-    rewrite (H eq_refl), String.eqb_refl in E. discriminate.
+  revert w; induction s as [|c s IH]; intros [|b w]; cbn [quote_meta]; try reflexivity.
+  - destruct (is_special c); reflexivity.
+  - destruct (is_special c) eqn:E.
+    + cbn [raw_match String.eqb]. rewrite Ascii.eqb_refl, IH. reflexivity.
+    + destruct (special_not_plain c E) as [Hb Hd].
+      cbn [raw_match String.eqb]. rewrite Hb, Hd, IH. reflexivity.
 Qed.
 
 Lemma to_lower_nonempty s : s <> "" -> to_lower s <> "".
@@ -51,16 +56,16 @@ Definition wf_src (s : rsvc) : Prop :=
   /\ to_lower (s_ap s) = s_ap s
   /\ (s_peer s <> "" -> s_ap s = "default").
 
-Definition lit_src (s : rsvc) : Prop :=
-  dot_free (eff_ap s) = true /\ dot_free (s_ns s) = true /\ dot_free (s_name s) = true.
+(* the partition is the only source text still spliced into the pattern unquoted *)
+Definition lit_src (s : rsvc) : Prop := dot_free (eff_ap s) = true.
 
 Lemma seg_pat x w :
-  x <> "" -> dot_free x = true ->
-  seg_match (if x =? wild then SAny else SText x) w = negb (w =? "") && ((x =? wild) || (x =? w)).
+  x <> "" ->
+  seg_match (if x =? wild then SAny else SText (quote_meta x)) w = negb (w =? "") && ((x =? wild) || (x =? w)).
 Proof.
-  intros Hne Hd. destruct (x =? wild); cbn.
+  intros Hne. destruct (x =? wild); cbn [seg_match orb].
   - rewrite andb_true_r. reflexivity.
-  - rewrite (raw_match_dot_free x w Hd).
+  - rewrite (raw_match_quote_meta x w).
     destruct (x =? w) eqn:E; [|rewrite andb_false_r; reflexivity].
     apply String.eqb_eq in E. subst w.
     destruct (x =? "") eqn:E2; [apply String.eqb_eq in E2; contradiction|reflexivity].
@@ -72,17 +77,17 @@ Proof. destruct b; reflexivity. Qed.
 
 Lemma spiffe_pat_covers s u :
   wf_src s -> lit_src s ->
-  (raw_match (s_td s) (u_host u) = true -> s_td s = u_host u) ->
+  raw_match (s_td s) (u_host u) = (s_td s =? u_host u) ->
   pat_match (spiffe_pat s) u = covers_uri s u.
 Proof.
-  intros (Hname & Hns & _ & _ & _ & _) (Lap & Lns & Lname) Hh.
+  intros (Hname & Hns & _ & _ & _ & _) Lap Hh. unfold lit_src in Lap.
   unfold pat_match, covers_uri, spiffe_pat.
   change (to_lower (or_default (if s_peer s =? "" then s_ap s else s_exp_ap s))) with (eff_ap s).
   pose proof (eff_ap_nonempty s) as Hape.
   set (e := eff_ap s) in *.
   assert (He0 : (e =? "") = false) by (apply String.eqb_neq; exact Hape).
   rewrite He0. cbn [orb ip_host ip_segs].
-  rewrite (raw_match_host _ _ Hh).
+  rewrite Hh.
   destruct u as [h segs]. cbn [u_host u_segs]. unfold parse_service. cbn [u_segs u_host].
   destruct (e =? "default") eqn:Ed.
   - (* no /ap/ segment *)
@@ -90,7 +95,7 @@ Proof.
       cbn [forall2b]; rewrite ?andb_false_r; try reflexivity.
     + cbv beta iota. rewrite if_some. unfold src_covers. cbn [id_td id_ap id_ns id_svc]. change (eff_ap s) with e.
       rewrite Ed.
-      rewrite (seg_pat (s_ns s) a2 Hns Lns), (seg_pat (s_name s) a6 Hname Lname).
+      rewrite (seg_pat (s_ns s) a2 Hns), (seg_pat (s_name s) a6 Hname).
       cbn [seg_match]. rewrite !raw_match_dot_free by reflexivity. btauto.
     + (* eight segments: the URI carries a non-default partition *)
       cbv beta iota. rewrite if_some. unfold src_covers. cbn [id_td id_ap id_ns id_svc]. change (eff_ap s) with e.
@@ -103,7 +108,7 @@ Proof.
     + cbv beta iota. rewrite if_some. unfold src_covers. cbn [id_td id_ap id_ns id_svc]. change (eff_ap s) with e. rewrite Ed.
       btauto.
     + cbv beta iota. rewrite if_some. unfold src_covers. cbn [id_td id_ap id_ns id_svc]. change (eff_ap s) with e.
-      rewrite (seg_pat (s_ns s) a4 Hns Lns), (seg_pat (s_name s) a8 Hname Lname).
+      rewrite (seg_pat (s_ns s) a4 Hns), (seg_pat (s_name s) a8 Hname).
       cbn [seg_match]. rewrite !raw_match_dot_free by (try reflexivity; exact Lap).
       destruct (e =? a2) eqn:E2.
       * apply String.eqb_eq in E2. rewrite <- E2, He0, Ed. btauto.
@@ -111,11 +116,11 @@ Proof.
 Qed.
 
 Lemma gateway_pat_is_gateway td u :
-  (raw_match td (u_host u) = true -> td = u_host u) ->
+  raw_match td (u_host u) = (td =? u_host u) ->
   pat_match (gateway_pat td) u = is_gateway td u.
 Proof.
   intros Hh. unfold pat_match, gateway_pat, is_gateway. cbn [ip_host ip_segs].
-  rewrite (raw_match_host _ _ Hh). destruct u as [h segs]. cbn [u_host u_segs].
+  rewrite Hh. destruct u as [h segs]. cbn [u_host u_segs].
   destruct segs as [|a1 [|a2 [|a3 [|a4 [|a5 segs]]]]]; cbn [forall2b]; rewrite ?andb_false_r; try reflexivity.
   cbn [seg_match]. rewrite !raw_match_dot_free by reflexivity. btauto.
 Qed.
